@@ -135,6 +135,28 @@ class Parser:
                 self.accept(";")
                 stmts.append(("assert", v, c))
                 continue
+            # attribute on a statement (`#[cfg(..)] stmt;`): the statement is a verification hook or a lint: skipped
+            if v == "#":
+                self.next()
+                self.expect("[")
+                d = 1
+                while d > 0:
+                    k2, v2 = self.next()
+                    if v2 == "[":
+                        d += 1
+                    elif v2 == "]":
+                        d -= 1
+                while self.next()[1] != ";":
+                    pass
+                continue
+            # plain assignment `x = expr;` to a `let mut` variable of an enclosing block
+            if k == "id" and self.peek(1)[1] == "=" and self.peek(1)[0] == "op":
+                name = self.next()[1]
+                self.next()
+                e = self.parse_expr()
+                self.expect(";")
+                stmts.append(("assign", name, e))
+                continue
             # compound assignment `i += expr;`
             if k == "id" and self.peek(1)[1] in ("+=", "-=", "|=", "&="):
                 name = self.next()[1]
@@ -146,6 +168,8 @@ class Parser:
             e = self.parse_expr()
             if self.accept(";"):
                 stmts.append(("expr", e))
+            elif e[0] in ("if", "match", "block") and self.peek()[1] != "}":
+                stmts.append(("expr", e))       # block-like expression used as a statement
             else:
                 result = e
                 self.expect("}")
@@ -283,6 +307,26 @@ class Parser:
             if self.peek()[1] == "(":
                 args = self.parse_args()
                 return ("call", name, args)
+            if self.peek()[1] == "{" and name in getattr(self, "struct_names", ()):
+                self.next()
+                fields = []
+                while not self.accept("}"):
+                    fname = self.next()[1]
+                    if self.accept(":"):
+                        if fname in getattr(self, "skip_fields", ()):
+                            d = 0
+                            while not (d == 0 and self.peek()[1] in (",", "}")):
+                                v3 = self.next()[1]
+                                if v3 in "([{":
+                                    d += 1
+                                elif v3 in ")]}":
+                                    d -= 1
+                        else:
+                            fields.append((fname, self.parse_expr()))
+                    else:
+                        fields.append((fname, ("var", fname)))
+                    self.accept(",")
+                return ("struct", name, fields)
             return ("var", name)
         raise MiniError("unexpected token %r" % (v,))
 
@@ -305,6 +349,13 @@ class Parser:
             while self.peek()[1] == "::":
                 self.next()
                 path.append(self.next()[1])
+            if path[-1] == "Some" and self.peek()[1] == "(":
+                self.next()
+                k2, v2 = self.next()
+                if k2 != "id":
+                    raise MiniError("unsupported pattern Some(%r)" % (v2,))
+                self.expect(")")
+                return ("somebind", v2)
             return ("enum", path[-1])
         raise MiniError("unsupported pattern %r" % (v,))
 
@@ -344,11 +395,22 @@ class Interp:
             if n in ("true", "false"):
                 return n == "true"
             raise MiniError("unbound variable %s" % n)
+        if k == "struct":
+            return ("struct", e[1], {f: self.ev(x, env) for f, x in e[2]})
         if k == "block":
-            env = dict(env)
+            import collections
+            env = env.new_child() if isinstance(env, collections.ChainMap) else collections.ChainMap({}, env)
             for s in e[1]:
                 if s[0] == "let":
                     env[s[1]] = self.ev(s[2], env)
+                elif s[0] == "assign":
+                    val = self.ev(s[2], env)
+                    for m in env.maps:
+                        if s[1] in m:
+                            m[s[1]] = val
+                            break
+                    else:
+                        raise MiniError("assignment to unbound variable %s" % s[1])
                 elif s[0] == "assert":
                     if not self.ev(s[2], env):
                         # debug_assert! failures are panics in the dev profile; the tables describe the dev profile
@@ -397,16 +459,18 @@ class Interp:
             if op == "^":
                 return a ^ b
             if op == "<<":
-                if b < 0 or b > 128:
-                    raise MiniError("shift amount %d" % b)
+                if b < 0 or b >= 64:
+                    raise Panic("shift left by %d bits overflows" % b)
                 return a << b
             if op == ">>":
-                if b < 0:
-                    raise MiniError("shift amount %d" % b)
+                if b < 0 or b >= 64:
+                    raise Panic("shift right by %d bits overflows" % b)
                 return a >> b
             if op == "+":
                 return a + b
             if op == "-":
+                if getattr(self, "unsigned", False) and a - b < 0:
+                    raise Panic("attempt to subtract with overflow")
                 return a - b
             if op == "*":
                 return a * b
@@ -421,6 +485,12 @@ class Interp:
                 for p in pats:
                     if p[0] == "wild" or (p[0] == "int" and v == p[1]) or (p[0] == "enum" and v == ("E", p[1])):
                         return self.ev(body, env)
+                    if p[0] == "enum" and p[1] == "None" and v is None:
+                        return self.ev(body, env)
+                    if p[0] == "somebind" and isinstance(v, tuple) and len(v) == 2 and v[0] == "some":
+                        env2 = dict(env)
+                        env2[p[1]] = v[1]
+                        return self.ev(body, env2)
             raise MiniError("non-exhaustive match on %r" % (v,))
         if k == "call":
             name = e[1]
